@@ -34,10 +34,39 @@ def c01(r):
 
 
 def c04(r):
-    producer(r, ["C04."])
+    producer(r, ["C04.", "C01."])  # "resumes producing a valid chain": chain validity is part of C04
 
 
-PIPELINES = {"C01": c01, "C04": c04}
+def syncer(r, prefixes, crash):
+    # tier I: the as-is design on a chain without repeated tx lists, the repaired design on one with them;
+    # the as-is design on repeated tx lists is the known finding C02-alias (TLC must find the counterexample)
+    r.tlc_exhaustive("MCSyncer.tla", "Syncer.cfg")
+    r.tlc_exhaustive("MCSyncer.tla", "Syncer_repaired.cfg")
+    ok, _ = r.tlc_exhaustive("MCSyncer.tla", "Syncer_alias.cfg", expect_ok=False)
+    if ok:
+        raise Inconclusive("Syncer_alias.cfg no longer reproduces the C02-alias counterexample: model and findings file disagree")
+    n = 60 if r.tier == "quick" else 300
+    for cfg, shape in [("Syncer_sim.cfg", "ShapeBig"), ("Syncer_simE.cfg", "ShapeE"), ("Syncer_simA.cfg", "ShapeA")]:
+        beh = r.tlc_simulate("MCSyncer.tla", cfg, n, 60, name="beh-" + shape)
+        for ih in ([1] if r.tier == "quick" else [1, 3]):
+            t = r.drive("syncer", ["-arg", "%d:%s" % (ih, shape)], beh=beh, name="syncer-model-%s-ih%d" % (shape, ih))
+            r.tlc_validate("SyncTrace", t, prefixes)
+    t = r.drive("syncer", name="syncer-random")
+    r.tlc_validate("SyncTrace", t, prefixes)
+    if crash:
+        t = r.drive("syncer", ["-arg", "crash"], name="syncer-crashenum")
+        r.tlc_validate("SyncTrace", t, prefixes)
+
+
+def c02(r):
+    syncer(r, ["C02."], crash=False)
+
+
+def c05(r):
+    syncer(r, ["C05.", "C02."], crash=True)
+
+
+PIPELINES = {"C01": c01, "C04": c04, "C02": c02, "C05": c05}
 ASSUME = {}
 FINISH = {}
 
@@ -46,4 +75,4 @@ def REPLAY_MONITOR(pid, path):
     import os
     import re
     m = re.match(r"%s-([A-Za-z0-9]+)-" % pid, os.path.basename(path))
-    return m.group(1) if m else {"C01": "ProducerTrace", "C04": "ProducerTrace"}[pid]
+    return m.group(1) if m else {"C01": "ProducerTrace", "C04": "ProducerTrace", "C02": "SyncTrace", "C05": "SyncTrace", "C03": "SyncTrace"}[pid]
